@@ -17,6 +17,12 @@ class ToGFA1:
     a.append(",".join(segment_names))
     overlaps = []
     for oline in self.captured_edges:
+      if not oline.line.is_dovetail():
+        # a GFA1 path is a walk over links: containments have no counterpart
+        raise gfapy.ValueError(
+          "Conversion to GFA1 failed\n"+
+          "The path contains an edge which is not a dovetail overlap\t"+
+          "Edge: {}".format(oline.line))
       overlap = oline.line.overlap
       gfapy.Field._validate_gfa_field(overlap, "alignment_gfa1")
       if oline.orient == "-":
